@@ -81,6 +81,23 @@ fn cmd_write(a: &Args) -> i32 {
     0
 }
 
+/// A reader that is legal by the `std::io::Read` contract but awkward: every call is first answered with
+/// `ErrorKind::Interrupted`, and a read never returns more than 7 bytes.
+struct Awkward<'a> { data: &'a [u8], pos: usize, interrupt_next: bool }
+impl std::io::Read for Awkward<'_> {
+    fn read(&mut self, buf: &mut [u8]) -> std::io::Result<usize> {
+        if self.interrupt_next {
+            self.interrupt_next = false;
+            return Err(std::io::Error::new(std::io::ErrorKind::Interrupted, "harness: interrupted"));
+        }
+        self.interrupt_next = true;
+        let n = buf.len().min(7).min(self.data.len() - self.pos);
+        buf[..n].copy_from_slice(&self.data[self.pos..self.pos + n]);
+        self.pos += n;
+        Ok(n)
+    }
+}
+
 fn cmd_read(a: &Args) -> i32 {
     let lines = read_lines(a.req("files"));
     let mut out = open_out(a.req("out"));
@@ -91,7 +108,9 @@ fn cmd_read(a: &Args) -> i32 {
         let text = f["text"].as_str().unwrap().to_string();
         let r = guarded(std::panic::AssertUnwindSafe(|| {
             let expect = Schema::parse_str(&text).map_err(|e| e.to_string())?;
-            let rd = match Reader::new(&bytes[..]) {
+            // every second file through the awkward reader (interrupted before every read, at most 7 bytes per read)
+            let src: Box<dyn std::io::Read> = if id % 2 == 1 { Box::new(Awkward { data: &bytes[..], pos: 0, interrupt_next: true }) } else { Box::new(&bytes[..]) };
+            let rd = match Reader::new(src) {
                 Ok(r) => r,
                 Err(e) => return Ok::<J, String>(json!({"open_ok":false,"read_err":true,"items":[],"schema_ok":false,"got_user":[],"err":e.to_string()})),
             };
